@@ -785,6 +785,22 @@ pub fn line_addr(prop: &'static str, full_triples: bool) -> Space {
     )
 }
 
+/// LINE-CHAN: all 65 536 two-byte channel fields (and all 256 one-byte ones).
+pub fn line_chan(prop: &'static str) -> Space {
+    Space::new(
+        "LINE-CHAN",
+        "all 256 one-byte and all 65536 two-byte channel fields on an unfragmented sentence (checksum correct)",
+        256 + 65536,
+        move |i, l| {
+            let mut payload = vec![b'0'; 28];
+            payload[0] = b'1';
+            let mut m = Mk::new(1, 1, b"", &payload, 0);
+            m.chan = if i < 256 { vec![i as u8] } else { vec![((i - 256) >> 8) as u8, ((i - 256) & 0xff) as u8] };
+            judge_line(l, &m.render(), false, prop);
+        },
+    )
+}
+
 /// LINE-TYPECHAR: all 256 first payload bytes × {unfragmented, first fragment, last fragment of a
 /// fresh parser (rejected), tag block} × decode.
 pub fn line_typechar(prop: &'static str) -> Space {
@@ -913,6 +929,7 @@ pub fn c07(tier: Tier) -> Vec<Space> {
         line_field_short("C07", if tier == Tier::Quick { 3 } else { 4 }),
         line_numeric("C07"),
         line_lengths("C07"),
+        line_chan("C07"),
         line_addr("C07", tier == Tier::Thorough),
         line_mut1("C07"),
         line_typechar("C07"),
